@@ -251,6 +251,7 @@ func (r *c28Run) Main(s *sim.Sim) {
 			s.Probe("converged")
 		}
 	}
+	s.Teardown()
 	sub.Unsubscribe(ctx)
 }
 
